@@ -9,7 +9,7 @@ from ..lhamodel import header as H
 from ..lhamodel.crc16 import crc16
 
 LEVEL = 'exploration'
-MODES = ['l', 'lv', 'v', 'vv', 't', 'x', 'xn', 'xfq0', 'xfq1', 'xfq2', 'xfw=out', 'p', 'pq', 'pn', 'lq', 'vq', 'xfi', 'tq1']
+MODES = ['l', 'lv', 'v', 'vv', 't', 'x', 'e', 'xn', 'xfq0', 'xfq1', 'xfq2', 'xfw=out', 'p', 'pq', 'pn', 'lq', 'vq', 'xfi', 'tq1']
 ALLOWED = set(range(0x20, 0x7f)) | {0x0a, 0x0d, 0x09}
 DATA = b'printable member data\n'
 
@@ -68,7 +68,8 @@ def one(job):
     if mode.startswith('x') and 'n' not in mode:
         # an error path too: something in the way of a parent directory
         pass
-    rc, so_, se, evs = fsmon.run_monitored(exe, so, [mode, 'a.lzh'], root, stdin=b'y\n' * 50)
+    answers = [b'y\n' * 50, b'n\n' * 50, b'q\ny\nn\n' * 20, b's\n', b'a\n'][n % 5]
+    rc, so_, se, evs = fsmon.run_monitored(exe, so, [mode, 'a.lzh'], root, stdin=answers)
     bad = []
     for stream, data in (('stdout', so_), ('stderr', se)):
         for i, c in enumerate(data):
@@ -102,6 +103,10 @@ def run(ctx):
             for i in range(0, len(byts), per):
                 chunk = byts[i:i + per]
                 ms = [member(lvl, field, x, k, rnd) for k, x in enumerate(chunk)]
+                if field in ('name', 'path'):
+                    # every member twice: the second extraction finds the file in place, so plain 'x'/'e' reach the overwrite
+                    # prompt (stderr) and the "Skipped" / replaced paths with the hostile name
+                    ms = ms + [member(lvl, field, x, k, rnd) for k, x in enumerate(chunk)]
                 for x in chunk:
                     planted.add((field, x))
                 archives.append(('%s L%d bytes %02x..%02x' % (field, lvl, chunk[0], chunk[-1]), arc.archive(ms)))
@@ -118,6 +123,8 @@ def run(ctx):
     n = 0
     for desc, A in archives:
         modes = MODES if (ctx.tier == 'thorough' or desc.startswith('error-path')) else rnd.sample(MODES, 8) + ['v', 'vv']
+        if desc.startswith(('name', 'path')):
+            modes = list(modes) + ['x', 'e']
         for mode in sorted(set(modes)):
             if mode[0] == 'p' and 'n' not in mode and desc.startswith('method'):
                 # with a planted method byte the member may be run through a real decompressor: what 'p' then dumps is file
